@@ -1,12 +1,20 @@
 import LolHtml.Lane.Echo
 import LolHtml.Lane.Lex
+import LolHtml.Lane.SelPure
+import LolHtml.Lane.Mem
+import LolHtml.Lane.MemTs
+import LolHtml.Lane.Scope
 
 namespace LolHtml.Lane
 
 /-- Registry of correspondence lanes: name ↦ one-line-in, one-line-out model runner. -/
 def registry : List (String × (String → String)) :=
   [ ("echo", Echo.run),
-    ("lex", Lex.run) ]
+    ("lex", Lex.run),
+    ("selpure", SelPure.run),
+    ("mem", Mem.run),
+    ("memts", MemTs.run),
+    ("scope", Scope.run) ]
 
 def find (name : String) : Option (String → String) :=
   (registry.find? (·.1 == name)).map (·.2)
